@@ -653,6 +653,81 @@ def wrapper_view_case(rng, sess):
                        {"at_call": at_call, "consumed_later": seen_later})
 
 
+def first_use_case(rng, sess):
+    """A fresh lock wrapper whose very first operations come from several threads at once (a thread switch offered at every
+    statement of the cache module): the wrapped cache is never entered by two threads at the same time.  The monitor is a
+    non-blocking guard inside the inner cache's own methods."""
+    import inspect
+    import threading
+    import sys as _sys
+    import clematis.engine.cache as cmod
+    from clematis.engine.cache import LRUCache, ThreadSafeCache, ThreadSafeBytesCache
+    from clematis.engine.util.lru_bytes import LRUBytes
+    from vlib.harness import line_yields
+
+    kind = rng.choice(["lru", "bytes"])
+    guard = threading.Lock()
+    overlaps = []
+
+    def guarded(fn, name):
+        def g(*a, **k):
+            if not guard.acquire(False):
+                overlaps.append(name)
+                return fn(*a, **k)
+            try:
+                # widen the window: give the other threads a chance while we are inside
+                import time as _t
+                _t.sleep(0)
+                return fn(*a, **k)
+            finally:
+                guard.release()
+        return g
+
+    inner = LRUBytes(max_entries=8, max_bytes=64) if kind == "bytes" else LRUCache(max_entries=8, ttl_s=0)
+    for name in ("get", "put", "items", "__contains__") if kind == "lru" else ("get", "put", "items"):
+        if hasattr(inner, name) and not name.startswith("__"):
+            setattr(inner, name, guarded(getattr(inner, name), name))
+    wrap = ThreadSafeBytesCache(inner) if kind == "bytes" else ThreadSafeCache(inner)
+    nt = rng.choice([2, 3, 4])
+    barrier = threading.Barrier(nt)
+    errs = []
+
+    def w(i):
+        try:
+            barrier.wait(10)
+            for j in range(3):
+                if kind == "bytes":
+                    wrap.put((i, j), j, 1)
+                else:
+                    wrap.put((i, j), j)
+                wrap.get((i, j))
+        except Exception as ex:
+            errs.append(f"{type(ex).__name__}: {ex}"[:120])
+
+    codes = [f.__code__ for f in vars(cmod).values() if inspect.isfunction(f) and f.__module__ == cmod.__name__]
+    for cls in (ThreadSafeCache, ThreadSafeBytesCache):
+        codes += [f.__code__ for f in vars(cls).values() if inspect.isfunction(f)]
+    old_si = _sys.getswitchinterval()
+    _sys.setswitchinterval(1e-6)
+    try:
+        with line_yields(codes, prob=0.6, seed=rng.randint(0, 10 ** 6), tool=3, name="verif-c15") as inj:
+            ths = [threading.Thread(target=w, args=(i,)) for i in range(nt)]
+            for t in ths:
+                t.start()
+            for t in ths:
+                t.join(30)
+        sess.count("first_use_yields_injected", inj[0])
+    finally:
+        _sys.setswitchinterval(old_si)
+    sess.evaluations += 1
+    sess.count("fresh_wrappers_first_used_by_several_threads")
+    case = {"first_use": True, "kind": kind, "threads": nt}
+    if errs:
+        sess.violation("first-use:wrapper-raises", case, errs[:2])
+    elif overlaps:
+        sess.violation("first-use:two-threads-inside-the-wrapped-cache", case, {"methods": overlaps[:4]})
+
+
 # ============================================================================ threads
 def threaded_history(kind, nthreads, nkeys, nops, cap, seed, sess, inject=True):
     from clematis.engine.cache import LRUCache, ThreadSafeCache, ThreadSafeBytesCache
@@ -919,6 +994,8 @@ def _work(args):
             for _ in range(300 if tier == "quick" else 5000):
                 merge_case(rng, sess)
                 wrapper_view_case(rng, sess)
+                if rng.random() < 0.25:
+                    first_use_case(rng, sess)
         elif what == "threads":
             rng = random.Random(f"C15/t/{seed}/{payload}")
             for j in range(6 if tier == "quick" else 60):
@@ -950,6 +1027,7 @@ def main(tier: str, seed: int):
     sess.require("threaded_gets_with_value_checked", 500)
     sess.require("merges_checked", 500)
     sess.require("wrapper_views_checked", 200)
+    sess.require("fresh_wrappers_first_used_by_several_threads", 40)
     sess.require("threaded_ttl_histories", 3)
     sess.require("threaded_ttl_misses_judged", 50)
     sess.finish()
